@@ -2,7 +2,7 @@ SPECIFICATION TraceSpec
 CONSTANTS
   ClientIds = {"c1", "c2", "c3", "c4", "c5", "c6"}
   DevIds = {"d1", "d2", "d3", "d4", "d5"}
-  Names = {"A", "B", "C", "D", "U"}
+  Names = {"A", "B", "C", "D", "U", "AB", ""}
   NoName = "none"
   NoSender = "nobody"
   AsIs = FALSE
